@@ -1910,4 +1910,9 @@ def obligations(tier):
     return obs
 
 
+BOUNDS["run-time removal"] = "remove-frame: real Scenario.removeTarget for any member of a 3-target universe; the where-clause of every delete it issues is evaluated on a symbolic event row (any scope, any addressee)"
+BOUNDS["builder"] = "builder-frame: real ScenarioBuilder._initTargets/_initEstimates and dynamicsFactory for two spacecraft with symbolic area (0,1000] m^2, mass [1,1e5] kg, reflectivity [0,1], both list orders, against each target built alone"
+ASSUMPTIONS.append("builder-frame: TargetAgent.fromConfig / EstimateAgent.fromConfig are recording stubs; platform configs are built with model_construct so that their fields can be solver variables")
+
+
 obligations("thorough")  # fills REPLAYS for `check C10 --replay <file>`
